@@ -14,13 +14,21 @@ def plain_conf(b, **kw):
 class Daemon:
     """A running plain daemon; write() input, signal(), read what it has written so far, close() -> exit code."""
 
-    def __init__(self, conf, b=None, debug=False, env=None, cwd=None, extra_args=()):
+    def __init__(self, conf, b=None, debug=False, env=None, cwd=None, extra_args=(), symlink=False):
         self.b = b or _build.build()
         self.dir = cwd or tempfile.mkdtemp(prefix='e3-', dir=self.b)
         self.own_dir = cwd is None
         self.conf_path = os.path.join(self.dir, 'iauthd.conf')
-        with open(self.conf_path, 'w') as f:
-            f.write(conf)
+        self.symlink = symlink
+        self.gen = 0
+        if symlink:
+            # the -f path is a symbolic link; new configurations are published by re-pointing it (publish())
+            with open(os.path.join(self.dir, 'gen0.conf'), 'w') as f:
+                f.write(conf)
+            os.symlink('gen0.conf', self.conf_path)
+        else:
+            with open(self.conf_path, 'w') as f:
+                f.write(conf)
         e = dict(os.environ); e.update(ENV)
         if env:
             e.update(env)
@@ -64,6 +72,20 @@ class Daemon:
             return True
         except (BrokenPipeError, OSError):
             return False
+
+    def publish(self, conf):
+        """Puts a new configuration in place: rewritten in place, or (symlink mode) written to a new file to which the link is atomically re-pointed."""
+        if not self.symlink:
+            with open(self.conf_path, 'w') as f:
+                f.write(conf)
+            return
+        self.gen += 1
+        name = 'gen%d.conf' % self.gen
+        with open(os.path.join(self.dir, name), 'w') as f:
+            f.write(conf)
+        tmp = self.conf_path + '.new'
+        os.symlink(name, tmp)
+        os.replace(tmp, self.conf_path)
 
     def signal(self, sig):
         self.p.send_signal(sig)
